@@ -21,7 +21,8 @@ EXTENDS EduceRun
 \* "TU"   : <T, U>
 \* "rich" : <'a, const N: usize, T: Bnd = u8> where T: Usr   (lifetime, const parameter, bounded + defaulted
 \*                                                            type parameter, user where-clause)
-\* "wide" : <'a, 'b: 'a, T: ?Sized + Bnd, const N: usize = 2, U: Bnd = u8> where &'b T: Usr, U: Usr, [u8; N]: Sized
+\* "wide" : <'a, 'b: 'a, T: ?Sized + Bnd, const N: usize = 2, U: Bnd = u8>
+\*          where &'b T: Usr, U: Usr, [u8; N]: Sized, Self: Sized, for<'x> &'x U: Usr2
 \*          (a lifetime bound, an unsized type parameter with two bounds, a defaulted const and a defaulted type
 \*           parameter, a where-clause over compound types)
 \* "lc"   : <'a, const N: usize>   (no type parameter at all: an item that is generic over a lifetime and a const only)
@@ -30,7 +31,7 @@ TypeParamsOf(g) == CASE g = "TU" -> <<"T", "U">> [] g = "rich" -> <<"T">> [] g =
 ImplParamsOf(g) ==                                                                     \* defaults dropped
   CASE g = "TU" -> <<"T", "U">> [] g = "rich" -> <<"'a", "constN:usize", "T:Bnd">> [] g = "lc" -> <<"'a", "constN:usize">>
     [] OTHER -> <<"'a", "'b:'a", "T:?Sized+Bnd", "constN:usize", "U:Bnd">>
-UserWhereOf(g)  == CASE g = "TU" -> {} [] g = "rich" -> {"T:Usr"} [] g = "lc" -> {} [] OTHER -> {"&'bT:Usr", "U:Usr", "[u8;N]:Sized"}
+UserWhereOf(g)  == CASE g = "TU" -> {} [] g = "rich" -> {"T:Usr"} [] g = "lc" -> {} [] OTHER -> {"&'bT:Usr", "U:Usr", "[u8;N]:Sized", "Self:Sized", "for<'x>&'xU:Usr2"}
 
 \* ---------------------------------------------------------------- field type classes
 \* text of the field type (spaces removed) and whether it implements a trait, given which of the type
